@@ -47,7 +47,8 @@ type rollCfg struct {
 	maxAge   int32
 	conform  bool // replay every execution's filesystem call log on the real filesystem
 	variant  string
-	openOnly bool // only file creations may fail
+	openOnly bool            // only file creations may fail
+	lands    []time.Duration // where in the next interval a clock tick may land (default: 1ms after the boundary)
 }
 
 type rollObs struct {
@@ -408,7 +409,7 @@ func rollScenario(prop string, c rollCfg, b zzvrt.Bounds) *zzvrt.Scenario {
 	return &zzvrt.Scenario{
 		Before: func() { resetAll(); o = rollObs{} },
 		Body:   func() { c.run(&o) },
-		Opts:   zzvrt.RunOpts{Bounds: b, Start: rollStart, TickStep: time.Hour},
+		Opts:   zzvrt.RunOpts{Bounds: b, Start: rollStart, TickStep: time.Hour, TickLands: c.lands},
 		Check:  func(x *zzvrt.Exec) (string, []zzvrt.Violation) { return rollCheck(prop, c, &o, x) },
 	}
 }
@@ -434,6 +435,11 @@ func init() {
 		reg(prop, rollCfg{writers: [][]string{{"a0", "a1"}, {"b0", "b1"}}}, "qt", bb{2, 2, 0}, bb{3, 3, 0})
 		reg(prop, rollCfg{writers: [][]string{{"a0"}, {"b0"}, {"c0"}}}, "t", bb{2, 2, 0}, bb{2, 3, 0})
 	}
+	// C13 with the clock landing anywhere in an interval: exactly on the boundary, just after it, in its second half
+	positions := []time.Duration{0, time.Millisecond, 45 * time.Minute}
+	reg("C13", rollCfg{writers: [][]string{{"a0", "a1", "a2"}}, lands: positions, variant: "tick-positions"}, "qt", bb{1, 3, 0}, bb{2, 3, 0})
+	reg("C13", rollCfg{writers: [][]string{{"a0", "a1"}, {"b0", "b1"}}, lands: positions, variant: "tick-positions"}, "qt", bb{1, 2, 0}, bb{2, 3, 0})
+	reg("C13", rollCfg{writers: [][]string{{"a0", "a1"}}, restart: true, lands: positions, variant: "tick-positions"}, "qt", bb{1, 2, 0}, bb{2, 3, 0})
 	// C13 with failing file creations (and nothing else failing): every write still lands exactly once
 	reg("C13", rollCfg{writers: [][]string{{"a0", "a1", "a2", "a3"}}, openOnly: true, variant: "failed-creations"}, "qt", bb{1, 3, 2}, bb{2, 3, 3})
 	reg("C13", rollCfg{writers: [][]string{{"a0", "a1"}, {"b0", "b1"}}, openOnly: true, variant: "failed-creations"}, "qt", bb{1, 2, 2}, bb{2, 3, 2})
